@@ -5,9 +5,10 @@ CONSTANTS
   AgentHost = 9
   FixMixedSum = TRUE
   FixEmptyHost = TRUE
-  Shapes <- MCLeaves10
+  Shapes <- MCLeaves6
   Percs = {FALSE, TRUE}
   MaxLeaves = 4
 VIEW View
 ACTION_CONSTRAINT ExportMerges
+INVARIANTS MergeCanonical MergeHosts TsCanonical
 CHECK_DEADLOCK FALSE
